@@ -488,6 +488,50 @@ end ops
 section ops
 variable {c : C} {a : A} {ρ : Nat → Nat}
 
+theorem sim_tcall (h : R c a ρ) {k : Nat} {h' : List Uv} {l' : List Nat}
+    (hfp : c.fp ≤ c.stack.length)
+    (hc : closeLoop c.stack c.fp c.heap c.openL = .ok (h', l')) :
+    R { c with stack := c.stack.take c.fp ++ c.stack.drop k, heap := h', openL := l' }
+      { a with cells := a.cells ++ c.stack.drop k,
+               stack := a.stack.take a.fp ++ List.range' a.cells.length (c.stack.drop k).length } ρ := by
+  have res := closeLoop_spec _ _ _ _ _ _ h.linv hc
+  obtain ⟨k1, k2, k3⟩ := sim_close_core h res (c.stack.drop k)
+    (List.range' a.cells.length (c.stack.drop k).length) (by
+      intro r hr; simp [List.mem_range'] at hr; omega)
+  rw [h.fp]
+  refine { len := ?_, fp := rfl, val := ?_, inj := ?_, opn := k1, cls := k2, clsInj := k3, hs := h.hs,
+           ups := h.ups, frames := h.frames, hsOk := ?_, upsOk := ?_, framesOk := ?_, linv := res.inv }
+  · simp [h.len]
+  · intro i w hi
+    show ∃ r, (a.stack.take c.fp ++ List.range' a.cells.length (c.stack.drop k).length)[i]? = some r ∧
+        (a.cells ++ c.stack.drop k)[r]? = some w
+    have hi : (c.stack.take c.fp ++ c.stack.drop k)[i]? = some w := hi
+    have hlen : (c.stack.take c.fp).length = c.fp := by simp; omega
+    have hlen' : (a.stack.take c.fp).length = c.fp := by simp [h.len]; omega
+    by_cases hlt : i < c.fp
+    · rw [List.getElem?_append_left (by omega), List.getElem?_take, if_pos hlt] at hi
+      obtain ⟨r, h1, h2⟩ := h.val i w hi
+      refine ⟨r, ?_, ?_⟩
+      · rw [List.getElem?_append_left (by omega), List.getElem?_take, if_pos hlt]; exact h1
+      · rw [List.getElem?_append_left (List.getElem?_eq_some_iff.mp h2).1]; exact h2
+    · rw [List.getElem?_append_right (by omega), hlen] at hi
+      have hil := (List.getElem?_eq_some_iff.mp hi).1
+      refine ⟨a.cells.length + (i - c.fp), ?_, ?_⟩
+      · rw [List.getElem?_append_right (by omega), hlen', List.getElem?_range' hil]; simp
+      · rw [List.getElem?_append_right (by omega)]
+        have e2 : a.cells.length + (i - c.fp) - a.cells.length = i - c.fp := by omega
+        rw [e2]; exact hi
+  · show (a.stack.take c.fp ++ List.range' a.cells.length (c.stack.drop k).length).Nodup
+    rw [List.nodup_append]
+    refine ⟨h.inj.sublist (List.take_sublist _ _), List.nodup_range', ?_⟩
+    intro x hx y hy
+    have := h.stack_lt x ((List.take_sublist _ _).subset hx)
+    simp [List.mem_range'] at hy
+    omega
+  · intro u hu; show u < h'.length; rw [res.len]; exact h.hsOk u hu
+  · intro u hu; show u < h'.length; rw [res.len]; exact h.upsOk u hu
+  · intro f hf u hu; show u < h'.length; rw [res.len]; exact h.framesOk f hf u hu
+
 theorem sim_ret (h : R c a ρ) {f : Frame} {fs : List Frame} {rv : Val} {h' : List Uv} {l' : List Nat}
     (hf : c.frames = f :: fs) (hlt : c.fp < c.stack.length)
     (hc : closeLoop c.stack c.fp c.heap c.openL = .ok (h', l')) :
@@ -679,6 +723,17 @@ theorem sim_step (h : R c a ρ) (op : Op) {c' : C} {r : Option Val} (hsc : scope
           rcases List.mem_cons.mp hf with rfl | hf'
           · exact h.upsOk u hu
           · exact h.framesOk f hf' u hu
+    · cases hs
+  | tcall n =>
+    simp only [step] at hs
+    split at hs
+    · rename_i hle
+      split at hs
+      · rename_i h' l' hcl
+        cases hs
+        refine ⟨_, ρ, ?_, sim_tcall (k := c.stack.length - (n + 1)) h (by omega) hcl⟩
+        simp only [stepA, h.fp, h.len, hle, if_true, h.readAll_drop]
+      · cases hs
     · cases hs
   | ret =>
     simp only [step] at hs
